@@ -43,6 +43,19 @@ def extra_docs():
     r2 = copy.deepcopy(ns["RULE"])
     r2["date"], r2["modified"] = "2024/1/5", "2024-02-01"
     docs.append(("rule", r2))
+    # what YAML itself makes of unquoted dates: date and datetime objects
+    import datetime
+
+    r3 = copy.deepcopy(ns["RULE"])
+    r3["date"], r3["modified"] = datetime.date(2024, 1, 5), datetime.datetime(2024, 2, 3, 4, 5, 6)
+    docs.append(("rule", r3))
+    # a log source with an additional key of the rule author's own, in a rule and in a filter
+    r4 = copy.deepcopy(ns["RULE"])
+    r4["logsource"]["vendor_hint"] = "foo"
+    docs.append(("rule", r4))
+    f3 = copy.deepcopy(ns["FILTER"])
+    f3["logsource"]["vendor_hint"] = "foo"
+    docs.append(("filter", f3))
     for t in TYPES:
         c = copy.deepcopy(ns["CORR"])
         c["correlation"]["type"] = t
